@@ -435,3 +435,12 @@ def found_after(sr, conds):
     if excluded(conds, "V == END", True, env) or holds(conds, "V < END", True, env):
         return True
     return None
+
+
+def holds_any(conds, want, ints=None, env=None):
+    """the disjunction `want` holds on the path: recorded as a whole, or one of its disjuncts is among the path's atoms"""
+    if holds(conds, want, ints, env):
+        return True
+    cn = Canon()
+    have = path_atoms(conds, ints, cn)
+    return any(any(d == h for h in have) for d in disjuncts(want, ints, env, cn))
